@@ -154,6 +154,19 @@ KNOWN_TEXT = {
 def c02(res, tier, seed):
     r = yv.rng(seed, "c02")
     wd = yv.workdir("C02")
+    # the chain confirmation algorithm as built (Chain.tla): sound for every order of the callbacks, complete for the orders it relies on
+    for cfg in ("MC_Chain.cfg", "MC_Chain3.cfg", "MC_Chain3_orderly.cfg", "MC_Chain4_orderly.cfg"):
+        m = yv.tlc("ChainMC", cfg, wd, timeout=1500, coverage=False, tier=tier)
+        if m["violated"]:
+            res.violation("TLC: %s in %s" % (m["violated"], cfg), yv.save_replay("C02", "model_" + cfg, {"tlc": m["out"][-4000:]}))
+        else:
+            yv.require_tlc_ok(m, cfg)
+        res.add_tlc("chain_" + cfg.split(".")[0], m)
+    for cfg, inv in (("MC_Chain_D12.cfg", "CompleteA2A3"), ("MC_Chain_D13.cfg", "CompleteA1A2")):
+        v = yv.tlc("ChainMC", cfg, wd, timeout=600, coverage=False)
+        if not (v["violated"] and inv in v["violated"]):
+            raise yv.Broken("non-vacuity run %s did not violate %s" % (cfg, inv))
+        res.cov["parts"]["nonvacuity_" + cfg] = "violated as expected (%s: the algorithm as built is incomplete without this assumption on the order of the callbacks)" % inv
     for variant, thresh, npat, maxbuf in (("chain4", 4, 300 if tier == "quick" else 4000, 40),
                                           ("asan", 200, 120 if tier == "quick" else 1500, 700)):
         groups, metas = [], []
@@ -207,8 +220,9 @@ def c02(res, tier, seed):
         records, owners = [], []
         skipped = 0
         scan_errors = {}
+        nchain = ncb = 0
         for ci in range(0, len(groups), 400):
-            run, per = func.run_rule_cases("asan", groups[ci:ci + 400], wd, "c02_%s_%d" % (variant, ci),
+            run, per = func.run_rule_cases("asan", groups[ci:ci + 400], wd, "c02_%s_%d" % (variant, ci), extra_lines_before=["opt chainhook 1"],
                                            extra_cflags="-DYR_STRING_CHAINING_THRESHOLD=4" if variant == "chain4" else "")
             if not run.complete:
                 rp = yv.save_replay("C02", "crash_%s_%d" % (variant, ci), {"crash": yv.crash_summary(run), "script": run.script_path})
@@ -227,10 +241,15 @@ def c02(res, tier, seed):
                     sc = g["scans"][bi]["t"]["strings"]["$s"]
                     records.append({"kind": "re", "ast": ast, "buf": list(b), "obs": [[o, l] for o, l, k, p in sc], "ascii": True,
                                     "wide": False, "nocase": False, "dotall": True, "fullword": False, "thresh": thresh})
+                    chains = list(g.get("chains", [{}] * len(g["scans"]))[bi].values())
+                    if chains and sum(len(c["cbs"]) for c in chains) <= 60:
+                        records[-1]["chain"] = chains
+                        nchain += 1; ncb += sum(len(c["cbs"]) for c in chains)
                     owners.append((variant, txt, b.hex(), sc))
                     res.count(1, (variant, txt, b) if sc else None)
         res.cov["parts"]["compile_rejected_" + variant] = skipped
         res.cov["parts"]["scan_errors_" + variant] = {str(k): v for k, v in scan_errors.items()}
+        res.cov["parts"]["chain_runs_" + variant] = {"scans_with_a_recorded_chain": nchain, "calls_of_the_confirmation_algorithm": ncb}
         judge_and_report(res, "C02", records, owners, lambda o: {"variant": o[0], "hex": o[1], "buf": o[2][:400], "observed": o[3]}, wd, "c02_" + variant)
         for o in owners[:3]:
             res.sample({"variant": o[0], "hex": "{ %s }" % o[1], "buf": o[2][:200], "obs": o[3]})
